@@ -17,7 +17,10 @@ import (
 
 func isolationAlphabet() []lx.Op {
 	var out []lx.Op
-	for _, l := range []string{"l1", "l2", "l3"} {
+	// bucket b2 first: it is the bucket whose population changes during a history (l3 alone,
+	// then l4 beside it, either of them soft-deleted or restored with the bucket), so that a
+	// run cut by its time budget has covered the bucket lifecycle before the static bucket b1
+	for _, l := range []string{"l3", "l1", "l2"} {
 		out = append(out,
 			lx.Op{Kind: "post", Ledger: l, Name: "fund", Postings: []lx.P{p("world", "a", "USD", "100")}, Ref: "r", IK: "k"},
 			lx.Op{Kind: "post", Ledger: l, Name: "a>b30", Postings: []lx.P{p("a", "b", "USD", "30")}, Meta: map[string]string{"who": l}},
@@ -33,12 +36,32 @@ func isolationAlphabet() []lx.Op {
 				lx.Op{Kind: "script", Ledger: l, Name: "ab>c50", Script: "send [USD 50] (\n source = {\n  @a\n  @b\n }\n destination = @c\n)"},
 			)
 		}
+		if l == "l3" {
+			out = append(out,
+				lx.Op{Kind: "createledger", Ledger: "l4", Address: "b2", Name: "create-l4-in-b2"},
+				lx.Op{Kind: "post", Ledger: "l4", Name: "fund", Postings: []lx.P{p("world", "a", "USD", "7")}, Ref: "r"},
+				// the system-level bucket operations (DELETE /v2/_/buckets/b2 and POST
+				// /v2/_/buckets/b2/restore): a soft delete makes every ledger of the bucket
+				// unroutable but leaves all their rows in the bucket schema; ledgers can be
+				// created in the bucket meanwhile, and a restore brings the old ones back
+				lx.Op{Kind: "deletebucket", Address: "b2", Name: "delete-bucket-b2"},
+				lx.Op{Kind: "restorebucket", Address: "b2", Name: "restore-bucket-b2"},
+			)
+		}
 	}
-	out = append(out,
-		lx.Op{Kind: "createledger", Ledger: "l4", Address: "b2", Name: "create-l4-in-b2"},
-		lx.Op{Kind: "post", Ledger: "l4", Name: "fund", Postings: []lx.P{p("world", "a", "USD", "7")}, Ref: "r"},
-	)
 	return out
+}
+
+// isoBucketOp: the operation acts on a whole bucket, i.e. on every ledger of it.
+func isoBucketOp(o lx.Op) bool { return o.Kind == "deletebucket" || o.Kind == "restorebucket" }
+
+// isoBelongs: the operation is part of the history of ledger l: the operations on l, its own
+// creation, and the soft deletes / restores of its bucket.
+func isoBelongs(o lx.Op, l string) bool {
+	if isoBucketOp(o) {
+		return isoBucket[l] == o.Address
+	}
+	return o.Ledger == l
 }
 
 const isoFundBoth = "fund-ab"
@@ -62,6 +85,48 @@ var isoBucket = map[string]string{"l1": "b1", "l2": "b1", "l3": "b2", "l4": "b2"
 type isoOutcomes struct {
 	sync.Mutex
 	byPath map[string]*isoOutcome
+	// lifecycle tallies (evaluations of the read oracle, live process and fresh process alike)
+	besideDeleted      int64 // a routable ledger read in full while its bucket holds the rows of a soft-deleted, non-empty ledger
+	besideDeletedEmpty int64 // ... of those, the routable ledger has no row of its own (every row it returns is foreign)
+	restoredNonEmpty   int64 // a non-empty ledger read in full after its bucket was soft-deleted and restored
+	goneSkipped        int64 // a soft-deleted ledger left out of the read oracle (the API cannot route it)
+}
+
+// tally classifies one evaluation of the read oracle with respect to the bucket lifecycle.
+func (io *isoOutcomes) tally(s *lx.StepInfo) {
+	restored := map[string]bool{} // bucket -> soft-deleted then restored earlier in the sequence
+	deleted := map[string]bool{}
+	for _, o := range s.Path {
+		switch o.Kind {
+		case "deletebucket":
+			deleted[o.Address] = true
+		case "restorebucket":
+			if deleted[o.Address] {
+				restored[o.Address] = true
+			}
+		}
+	}
+	var beside, besideEmpty, rest int64
+	for n := range s.Ctrls {
+		for g := range s.Gone {
+			if s.Buckets[g] == s.Buckets[n] && len(s.Refs[g].Logs) > 0 {
+				beside++
+				if len(s.Refs[n].Logs) == 0 {
+					besideEmpty++
+				}
+				break
+			}
+		}
+		if restored[s.Buckets[n]] && len(s.Refs[n].Logs) > 0 {
+			rest++
+		}
+	}
+	io.Lock()
+	io.besideDeleted += beside
+	io.besideDeletedEmpty += besideEmpty
+	io.restoredNonEmpty += rest
+	io.goneSkipped += int64(len(s.Gone))
+	io.Unlock()
 }
 
 type isoOutcome struct {
@@ -141,7 +206,7 @@ func (io *isoOutcomes) compare(r *ev.Run, total *lx.SeqStats, cov ev.Coverage, l
 		var own []lx.Op
 		fundedNeighbour := false
 		for _, o := range got.path[:len(got.path)-1] {
-			if o.Ledger == last.Ledger {
+			if isoBelongs(o, last.Ledger) {
 				own = append(own, o)
 			} else if o.Name == isoFundBoth && isoBucket[o.Ledger] == isoBucket[last.Ledger] {
 				fundedNeighbour = true
@@ -152,7 +217,7 @@ func (io *isoOutcomes) compare(r *ev.Run, total *lx.SeqStats, cov ev.Coverage, l
 		for _, l := range isoLedgers {
 			var proj []lx.Op
 			for _, o := range got.path {
-				if o.Ledger == l {
+				if isoBelongs(o, l) {
 					proj = append(proj, o)
 				}
 			}
@@ -176,6 +241,11 @@ func (io *isoOutcomes) compare(r *ev.Run, total *lx.SeqStats, cov ev.Coverage, l
 				r.Violation("C19:iso:vol:zero-row:depends-on-other-ledger", fmt.Sprintf("after %v ledger %s lists the volumes rows [%s] that none of its postings explains; after its own operations alone (%v) it lists [%s]", opNamesOf2(got.path), l, got.zeroRows[l], opNamesOf2(proj), want),
 					map[string]any{"ledgers": ledgers, "ops": got.path, "projection": proj})
 			}
+		}
+		if isoBucketOp(last) {
+			// a soft delete / restore is not an operation ON a ledger: what it returns is not
+			// the subject of the property (its effect on what every ledger returns is)
+			continue
 		}
 		if len(own) == len(got.path) {
 			continue
@@ -206,8 +276,28 @@ func (io *isoOutcomes) compare(r *ev.Run, total *lx.SeqStats, cov ev.Coverage, l
 	cov["cross_ledger_zero_row_comparisons"] = zeroCompared
 	cov["single_ledger_sequences_leaving_a_zero_volumes_row"] = ownZero
 	cov["multi_balance_reads_beside_a_funded_neighbour_by_own_outcome"] = multi
+	cov["bucket_lifecycle"] = map[string]int64{
+		"read_oracle_runs_on_a_ledger_whose_bucket_holds_rows_of_a_soft_deleted_ledger":           io.besideDeleted,
+		"of_which_on_a_ledger_without_any_row_of_its_own":                                         io.besideDeletedEmpty,
+		"read_oracle_runs_on_a_non_empty_ledger_after_soft_delete_and_restore_of_its_bucket":      io.restoredNonEmpty,
+		"soft_deleted_ledgers_left_out_of_the_read_oracle_(not_routable_through_the_API)":         io.goneSkipped,
+		"operations_addressed_to_a_ledger_that_is_not_routable_(not_created_yet_or_soft_deleted)": total.Outcomes["post:no_such_ledger"] + total.Outcomes["script:no_such_ledger"] + total.Outcomes["revert:no_such_ledger"] + total.Outcomes["accmeta:no_such_ledger"],
+	}
 	if r.ViolationCount() > 0 || total.DepthDone < 2 {
 		return
+	}
+	// the bucket lifecycle must really have been exercised: [write on l3, soft delete of b2,
+	// create l4 in b2] has length 3, and so has [write on l3, soft delete, restore]
+	if total.DepthDone >= 3 {
+		if io.besideDeleted == 0 || io.besideDeletedEmpty == 0 {
+			r.EngineError(fmt.Sprintf("vacuous: no ledger was read while its bucket held the rows of a soft-deleted non-empty ledger (%d; on a ledger with no row of its own: %d)", io.besideDeleted, io.besideDeletedEmpty))
+		}
+		if io.restoredNonEmpty == 0 {
+			r.EngineError("vacuous: no non-empty ledger was read after the soft delete and the restore of its bucket")
+		}
+		if io.goneSkipped == 0 {
+			r.EngineError("vacuous: the soft delete of a bucket never made a ledger unroutable")
+		}
 	}
 	if compared == 0 {
 		r.EngineError("vacuous: no sequence was compared with its projection on one ledger")
@@ -262,11 +352,12 @@ func init() {
 					rep.Add("iso:schemas", "ledger %s lists %d schemas", n, len(sc.Data))
 				}
 			}
+			isoOut.tally(s)
 			isoOut.record(s, zero)
 		},
 		post: func(r *ev.Run, total *lx.SeqStats, cov ev.Coverage) { isoOut.compare(r, total, cov, isoCfg) },
-		need: []string{"post:ok", "post:insufficient_funds", "script:ok", "script:insufficient_funds", "revert:ok", "accmeta:ok", "createledger:ok"},
-		rule: "ledgers l1,l2 share bucket b1, l3 is alone in b2 (alone-in-bucket optimisation active) until the operation `create l4 in b2` runs; every sequence of length<=depth over the same writes on each ledger (same addresses, same reference r, same idempotency key k, reverts of tx 1; on the two ledgers sharing b1 also a transaction funding accounts a and b, with 10 each on l1 and 100 each on l2 so that the same accounts hold different balances, and a Numscript send of 50 drawing on the two bounded sources {@a @b}, whose funds check reads two balances at once: l1 alone cannot pay it, l2 alone can) plus the mid-history ledger creation. (1) after each sequence EVERY read API of EVERY ledger must equal that ledger's own reference model, from the live controllers (whose stores share the per-bucket aloneInBucket flag) and from a freshly attached process; (2) what the last operation of each sequence returned (accepted / refused with which error / idempotency hit, log id and type, transaction id, postings, reference, metadata, reverted id; dates aside) must equal what it returns in the same sequence WITHOUT the operations of the other ledgers (its projection, itself an enumerated sequence): e.g. insufficient funds on l1 must not depend on the balances of the same accounts on l2; (3) a (0,0) volumes row of a pair no posting of the ledger touches (the ledger's funds check materialises one for each source it consulted) must be there exactly when the ledger's own operations alone leave it",
+		need: []string{"post:ok", "post:insufficient_funds", "script:ok", "script:insufficient_funds", "revert:ok", "accmeta:ok", "createledger:ok", "deletebucket:ok", "restorebucket:ok"},
+		rule: "ledgers l1,l2 share bucket b1, l3 is alone in b2 (alone-in-bucket optimisation active) until the operation `create l4 in b2` runs; every sequence of length<=depth over the same writes on each ledger (same addresses, same reference r, same idempotency key k, reverts of tx 1; on the two ledgers sharing b1 also a transaction funding accounts a and b, with 10 each on l1 and 100 each on l2 so that the same accounts hold different balances, and a Numscript send of 50 drawing on the two bounded sources {@a @b}, whose funds check reads two balances at once: l1 alone cannot pay it, l2 alone can) plus the mid-history ledger creation, plus the two system-level bucket operations on b2: soft delete (DELETE /v2/_/buckets/b2: every ledger of b2 stops being routable, all its rows stay in the bucket schema) and restore (POST /v2/_/buckets/b2/restore), in every order with the creation of l4 and the writes (l4 created beside a soft-deleted non-empty l3, l3 restored beside an l4 created meanwhile, l3 and l4 deleted and restored together, ...). After a bucket operation the explorer asks the system store, for every ledger, whether it can still be routed (as the API's ledger middleware does for every request): operations on an unroutable ledger are not executed (404), a ledger that is routable again is re-opened. (1) after each sequence EVERY read API of EVERY ROUTABLE ledger must equal that ledger's own reference model (a soft-deleted ledger's reads are out of scope: it is gone for the API; a ledger created in the bucket of soft-deleted ledgers must read as its own history says, i.e. empty until it is written to; a restored ledger must read exactly as before its deletion), from the live controllers (whose stores share the per-bucket aloneInBucket flag) and from a freshly attached process; (2) what the last operation of each sequence returned (accepted / refused with which error / idempotency hit, log id and type, transaction id, postings, reference, metadata, reverted id; dates aside) must equal what it returns in the same sequence WITHOUT the operations of the other ledgers (its projection, itself an enumerated sequence; the soft deletes and restores of a bucket belong to the projection of every ledger of that bucket): e.g. insufficient funds on l1 must not depend on the balances of the same accounts on l2; (3) a (0,0) volumes row of a pair no posting of the ledger touches (the ledger's funds check materialises one for each source it consulted) must be there exactly when the ledger's own operations alone leave it",
 	})
 
 	// ---------- C35 ----------
